@@ -373,7 +373,68 @@ func runC04(c *config) {
 	} {
 		c04Check(c, src, "patterns", false)
 	}
+	c04Bindings(c)
 	_ = o
+}
+
+// c04Bindings: modules in which a NAME that looks like a number lives next to the unnamed value with
+// that number as its ID; every use must bind to its own namesake
+func c04Bindings(c *config) {
+	o := c.out
+	type bcase struct {
+		name, src string
+		check     func(m *ir.Module) string
+	}
+	for _, bc := range []bcase{
+		{"labels", "define i32 @f(i1 %c) {\n\tbr i1 %c, label %\"0\", label %\"7\"\n\"0\":\n\tbr label %\"7\"\n\"7\":\n\t%p = phi i32 [ 1, %\"0\" ], [ 2, %0 ]\n\tret i32 %p\n}\n",
+			func(m *ir.Module) string {
+				f := m.Funcs[0]
+				br := f.Blocks[0].Term.(*ir.TermCondBr)
+				phi := f.Blocks[2].Insts[0].(*ir.InstPhi)
+				switch {
+				case br.TargetTrue != f.Blocks[1] || br.TargetFalse != f.Blocks[2]:
+					return "a branch to the block named \"0\" / \"7\" binds to another block"
+				case phi.Incs[0].Pred != f.Blocks[1]:
+					return "the phi predecessor %\"0\" is not the block named 0"
+				case phi.Incs[1].Pred != f.Blocks[0]:
+					return "the phi predecessor %0 is not the unnamed entry block"
+				}
+				return ""
+			}},
+		{"globals", "@0 = global i32 1\n@\"0\" = global i32 2\n@a = global i32* @0\n@b = global i32* @\"0\"\n",
+			func(m *ir.Module) string {
+				if m.Globals[2].Init != constant.Constant(m.Globals[0]) || m.Globals[3].Init != constant.Constant(m.Globals[1]) {
+					return "@0 and @\"0\" are confused"
+				}
+				return ""
+			}},
+		{"params", "define i32 @f(i32, i32 %\"0\") {\n\t%r = sub i32 %0, %\"0\"\n\tret i32 %r\n}\n",
+			func(m *ir.Module) string {
+				f := m.Funcs[0]
+				sub := f.Blocks[0].Insts[0].(*ir.InstSub)
+				if sub.X != f.Params[0] || sub.Y != f.Params[1] {
+					return "%0 and %\"0\" are confused"
+				}
+				return ""
+			}},
+	} {
+		m, oc, msg := parseGuard(bc.src)
+		o.Stat("modules.bindings")
+		if oc != ocOk {
+			o.Fail("reference_identity", "", "valid module with numeric names rejected: "+msg, map[string]string{"src": bc.src})
+			continue
+		}
+		var bad string
+		oc2, _ := guard(func() error { bad = bc.check(m); return nil })
+		if oc2 != ocOk {
+			bad = "unexpected shape of the parsed module"
+		}
+		if bad != "" {
+			o.Fail("reference_identity", "", bad, map[string]string{"src": bc.src})
+		} else {
+			o.Pass("reference_binding")
+		}
+	}
 }
 
 // ---- C05
